@@ -41,3 +41,8 @@ def run(ctx, crate):
     from .c04 import rule_finish_forced_draw, rule_drop_finish_once
     rule_finish_forced_draw(ctx, crate)
     rule_drop_finish_once(ctx, crate)
+    # "followed by the bar's current rendering": every draw - also the one a println makes - renders the bar unless it is
+    # finished *and cleared* (a println through a visibly finished bar must not replace its frame by the text alone: seed C01l)
+    D.rule_render_unless_hidden(ctx, crate)
+    # "with no remnant of any earlier frame": the rows erased next time are those of the text that was written
+    D.rule_painted_is_measured(ctx, crate)
